@@ -84,3 +84,31 @@ def is_callable_value(it, v) -> bool:
     from ..values import Bound, FuncV
 
     return isinstance(v, (FuncV, Bound, _Builtin)) or it.dunder(v, "__call__") is not None
+
+
+GLOBAL_MUTATORS = (
+    "set_flush_denormal", "set_default_dtype", "set_default_device", "set_default_tensor_type", "set_float32_matmul_precision",
+    "use_deterministic_algorithms", "set_num_threads", "set_num_interop_threads", "manual_seed", "manual_seed_all", "seed",
+    "set_rng_state", "set_rng_state_all", "set_detect_anomaly", "set_printoptions", "set_warn_always", "set_autocast_enabled",
+)
+
+
+def global_state_calls(events) -> list:
+    """Calls that change a process-wide setting of torch (numerics, RNG, defaults): a library routine that
+    runs as part of a forward pass or a graph rewrite must not leave the process in another mode."""
+    from ..values import fmt
+
+    out = []
+    for e in events:
+        name = None
+        if e.kind == "call":
+            name = str(e["callee"])
+        elif e.kind == "callv":
+            name = fmt(e["callee"])
+        elif e.kind == "setattr" and "torch.backends" in fmt(e["obj"]):
+            name = fmt(e["obj"]) + "." + str(e["attr"]) + " = ..."
+            out.append(name[:80])
+            continue
+        if name and name.startswith("torch") and name.split("(")[0].rsplit(".", 1)[-1] in GLOBAL_MUTATORS:
+            out.append(name[:80])
+    return out
